@@ -77,7 +77,7 @@ pub fn exec(toks: &[&str]) -> Result<String, String> {
         }
     }
     let table: Vec<i32> = parse_list(toks[2], ',')?;
-    if table.len() != k * k || table.iter().any(|v| v.abs() > 1000) {
+    if table.len() != k * k || table.iter().any(|v| (*v as i64).abs() > (1 << 30)) {
         return Err("table".into());
     }
     let reference = unhex(toks[3])?;
@@ -111,6 +111,21 @@ pub fn exec(toks: &[&str]) -> Result<String, String> {
     }
     if steps.is_empty() || steps.len() > 16 {
         return Err("steps".into());
+    }
+    // the envelope of the tie: `PoaEnv` of `Thm/C16.lean` (`poa_i32_no_overflow`) together with the sentinel condition of
+    // `model_faithful_global_on_linear_graph_is_optimum`: (m + 2n + 1) B < -MIN_SCORE for every step, with B the largest
+    // magnitude of a table entry / of the gap score and m an upper bound of the node count (every addition adds at most |query|)
+    {
+        let b = env_bound(sc[0], &table);
+        let mut m_up = reference.len();
+        for st in &steps {
+            if b > env_max_bound(m_up, st.query.len()) {
+                return Err("step outside the envelope (m + 2n + 1) B < -MIN_SCORE".into());
+            }
+            if st.add {
+                m_up += st.query.len();
+            }
+        }
     }
 
     let mut idx = [usize::MAX; 256];
@@ -169,6 +184,16 @@ pub fn exec(toks: &[&str]) -> Result<String, String> {
 }
 
 // ---------------------------------------------------------------------------------------------- generation
+
+/// the bound `B` of `PoaEnv`: largest magnitude of a table entry and of the gap score, at least 1
+fn env_bound(gap: i32, table: &[i32]) -> i64 {
+    table.iter().map(|v| (*v as i64).abs()).fold((gap as i64).abs().max(1), i64::max)
+}
+
+/// largest `B` with `(m + 2n + 1) B < -MIN_SCORE`
+fn env_max_bound(m: usize, n: usize) -> i64 {
+    (-(MIN_SCORE as i64) - 1) / (m + 2 * n + 1) as i64
+}
 
 struct Scheme {
     gap: i32,
@@ -351,6 +376,83 @@ fn history(rng: &mut Rng, out: &mut Vec<String>) {
     out.push(format!("{} {} {}", sch.head(), hex(&r), steps.join("/")));
 }
 
+/// "envelope edge": the sequences are drawn first, then scores of magnitude up to the largest `B` the envelope of `exec`
+/// allows for this history — the `i32` arithmetic of `custom` / `global_banded` is sampled next to the proven bound
+/// (`poa_i32_no_overflow`), not only for |scores| <= 5.  Linear graph (score clause: `g` and full-band `b` steps, nothing
+/// added) or a history with additions in all modes.
+fn edge_case(rng: &mut Rng, out: &mut Vec<String>) {
+    let alpha = alphabet(rng);
+    let k = alpha.len();
+    let r = reference(rng, &alpha);
+    let linear = rng.chance(1, 2);
+    let nsteps = 1 + rng.below(5);
+    let mut steps = vec![];
+    let mut earlier: Vec<Vec<u8>> = vec![];
+    let mut nodes = r.len();
+    let mut bmax = i64::MAX;
+    for _ in 0..nsteps {
+        let q = query(rng, &alpha, &r, &earlier);
+        bmax = bmax.min(env_max_bound(nodes, q.len()));
+        let add = !linear && rng.chance(3, 4);
+        let s = match rng.below(if linear { 12 } else { 16 }) {
+            0..=7 => {
+                let bw = if rng.chance(1, 2) { full_band(rng, nodes, q.len()) } else { 0 };
+                step('g', &q, bw, add)
+            }
+            8..=11 => step('b', &q, full_band(rng, nodes, q.len()), add),
+            12 => step('s', &q, 0, add),
+            13 => step('l', &q, 0, add),
+            _ => step('c', &q, 0, add),
+        };
+        steps.push(s);
+        if add {
+            nodes += q.len();
+            earlier.push(q);
+        }
+    }
+    let b = match rng.below(6) {
+        0 | 1 | 2 => bmax,
+        3 => bmax - 1,
+        4 => bmax / 2,
+        _ => rng.range(1001.min(bmax), bmax),
+    };
+    let big = |rng: &mut Rng| -> i32 {
+        (match rng.below(4) {
+            0 | 1 => b,
+            2 => b - rng.range(0, 3.min(b)),
+            _ => rng.range(0, b),
+        }) as i32
+    };
+    let style = rng.below(4);
+    let mut table = vec![0i32; k * k];
+    for i in 0..k {
+        for j in 0..k {
+            table[i * k + j] = match style {
+                0 => if i == j { b as i32 } else { -(b as i32) },
+                1 => if i == j { big(rng) } else { -big(rng) },
+                _ => if rng.chance(1, 2) { big(rng) } else { -big(rng) },
+            };
+        }
+    }
+    let gap = match rng.below(5) {
+        0 | 1 => -(b as i32),
+        2 => 0,
+        3 => -(rng.range(1, 6) as i32),
+        _ => -(rng.range(0, b) as i32),
+    };
+    let clips = if linear || rng.chance(1, 2) {
+        [MIN_SCORE; 4]
+    } else {
+        let mut c = [0i32; 4];
+        for x in c.iter_mut() {
+            *x = *rng.pick(&[MIN_SCORE, MIN_SCORE, 0, -1, -(b as i32), MIN_SCORE / 2, MIN_SCORE + 1]);
+        }
+        c
+    };
+    let sch = Scheme { gap, clips, alpha, table };
+    out.push(format!("{} {} {}", sch.head(), hex(&r), steps.join("/")));
+}
+
 /// the score clause in volume: several queries against the fresh linear graph, nothing added
 fn linear_case(rng: &mut Rng, out: &mut Vec<String>) {
     let sch = if rng.chance(1, 3) { scheme_unique(rng) } else { scheme_any(rng) };
@@ -412,6 +514,11 @@ pub fn gen(tier: &str, rng: &mut Rng, out: &mut Vec<String>) {
             2 => identity_case(rng, out),
             _ => history(rng, out),
         }
+    }
+    // envelope edge (appended, so that the cases above are those of the earlier sessions)
+    let nedge = if tier == "thorough" { 10_000 } else { 600 };
+    for _ in 0..nedge {
+        edge_case(rng, out);
     }
     if tier == "thorough" {
         // exhaustive small scope: every reference and query over {A,C} of length 1..4 (30 x 30), three schemes,
